@@ -25,7 +25,7 @@ package cert
 // ---- tables (C01, C02, C05)
 //@ func tables
 //@   props C01 C02 C05 C06 C07 C17
-//@   uses x509.smt2 keys.smt2 ext.smt2 ec.smt2
+//@   uses x509.smt2 keys.smt2 ext.smt2 ec.smt2 oidok.smt2
 //@   ensures @C01,C02 forall a in [0, 8) :: has(sigAlgOids, a) && sigAlgOids[a] != nil && oidv(sigAlgOids[a]) == specSigOid(a)
 //@   ensures @C05 forall a in [0, 14) :: has(keyTypes, a) && keyTypes[a] == (if a <= 3 then 0 else 1)
 //@   ensures @C02 snMax != nil && BigVal(snMax) == pow2(159)
@@ -165,6 +165,7 @@ package cert
 //@   props C17 C14
 //@   uses fs.smt2 ec.smt2
 //@   given NAMEOIDS
+//@   given NAMEOIDSOK
 //@   given oidv(oidRsaEncryption) == oid("1.2.840.113549.1.1.1") && oidv(oidEcPublicKey) == oid("1.2.840.10045.2.1")
 //@   ghostret P8 gopki/generator/cert.pkcs8 = unboxed(callarg("encoding/asn1.Marshal", 2, 0), "gopki/generator/cert.pkcs8")
 //@   ghostret P8R gopki/generator/cert.pkcs8 = unboxed(callarg("encoding/asn1.Marshal", 1, 0), "gopki/generator/cert.pkcs8")
@@ -178,6 +179,11 @@ package cert
 //@   ensures @C17 bound(P8) ==> typeis(key, "*crypto/ecdsa.PrivateKey") && P8.Version == 0 && oidv(P8.Algo.Algorithm) == oid("1.2.840.10045.2.1") && bytes(P8.PrivateKey) == ECDER && (err == nil ==> bytes(res) == der(deep(P8)))
 //@   ensures @C17 bound(P8) ==> bytes(P8.Algo.Parameters.FullBytes) == der(deepOid(specCurveOid(curveId(K.Curve))))
 //@   ensures @C17 !typeis(key, "*crypto/rsa.PrivateKey") && !typeis(key, "*crypto/ecdsa.PrivateKey") ==> err != nil
+// what the inner ECPrivateKey holds, and that a valid EC key is always written (for the round trip of C17)
+//@   ghostret ECG gopki/generator/cert.ecPrivateKey = callghost("gopki/generator/cert.marshalECPrivateKeyWithOID", 1, "EC")
+//@   ensures @C17 bound(P8) ==> bound(ECG) && ECDER == der(deep(ECG)) && ECG.Version == 1 && bytes(ECG.PrivateKey) == bePad(BigVal(K.D), curveBytes(curveId(K.Curve))) && len(ECG.NamedCurveOID) == 0
+//@   ensures @C17 typeis(key, "*crypto/ecdsa.PrivateKey") && onCurve(curveId(K.Curve), BigVal(K.X), BigVal(K.Y)) ==> err == nil && bound(P8)
+//@   ensures @C17 typeis(key, "*crypto/rsa.PrivateKey") ==> err == nil && bound(P8R)
 //@   abstracts err == nil ==> bytes(res) == pkcs8(key)
 
 // ---- extensions (C06: identifier and critical flag; C07: value)
@@ -434,8 +440,15 @@ package cert
 //@   ensures @C17,C14 err == nil ==> EC.Version == 1 && CID >= 4 && key != nil && fresh(key) && key.Curve != nil && curveId(key.Curve) == CID
 //@   ensures @C17,C14 err == nil ==> key.D != nil && BigVal(key.D) == D && D < curveOrder(CID)
 //@   ensures @C17,C14 err == nil ==> key.X != nil && key.Y != nil && BigVal(key.X) == sbmX(CID, D) && BigVal(key.Y) == sbmY(CID, D)
+// the same in terms of the input (rt.smt2: what Unmarshal reads from it), and the converse: a well-formed encoding
+// of a scalar below the group order, not longer than the curve size, is accepted
+//@   let DB = old(bytes(der))
+//@   let CIN = (if namedCurveOID != nil then curveOfOid(oidv(old(deref(namedCurveOID)))) else curveOfOid(ecOidOf(DB)))
+//@   ensures @C17 err == nil ==> isEcDer(DB) && ecVer(DB) == 1 && CIN >= 4 && curveId(key.Curve) == CIN && BigVal(key.D) == be(ecScalar(DB)) && BigVal(key.X) == sbmX(CIN, be(ecScalar(DB))) && BigVal(key.Y) == sbmY(CIN, be(ecScalar(DB)))
+//@   ensures @C17 isEcDer(DB) && ecVer(DB) == 1 && CIN >= 4 && be(ecScalar(DB)) < curveOrder(CIN) && blen(ecScalar(DB)) <= curveBytes(CIN) ==> err == nil
 //@   loop 1
 //@     invariant @C17,C14 be(bytes(privKey.PrivateKey)) == entry(be(bytes(privKey.PrivateKey))) && len(privateKey) == curveBytes(CIDL) && fresh(privateKey)
+//@     invariant @C17 len(privKey.PrivateKey) <= entry(len(privKey.PrivateKey))
 
 // marshalECPrivateKeyWithOID: RFC 5915 ECPrivateKey, version 1, the scalar as exactly ceil(bitlen(n)/8) big-endian
 // octets, the given curve OID, the uncompressed public point.
@@ -450,6 +463,8 @@ package cert
 //@   ensures @C17 bound(EC) ==> EC.Version == 1 && len(EC.PrivateKey) == curveBytes(CID) && bytes(EC.PrivateKey) == bePad(BigVal(key.D), curveBytes(CID)) && EC.NamedCurveOID == oid && bytes(EC.PublicKey.Bytes) == ecPoint(CID, BigVal(key.X), BigVal(key.Y))
 //@   ensures @C17 bound(EC) ==> err == nil ==> bytes(res) == der(deep(EC))
 //@   ensures !bound(EC) ==> err != nil
+// a key whose public point is on its curve is always written
+//@   ensures @C17 onCurve(CID, BigVal(key.X), BigVal(key.Y)) ==> bound(EC) && err == nil
 
 
 // ParsePKCS8PrivateKey: RSA keys go to the PKCS#1 parser, EC keys to parseECPrivateKey with the curve OID of the
@@ -469,6 +484,38 @@ package cert
 //@   ensures @C17 err == nil && bound(P8) && bound(P8KEY) && oidv(P8.Algo.Algorithm) == oid("1.2.840.113549.1.1.1") ==> typeis(key, "*crypto/rsa.PrivateKey") && pkcs1priv(unboxRef(key)) == P8KEY
 //@   ensures @C17,C14 err == nil && bound(P8) && oidv(P8.Algo.Algorithm) != oid("1.2.840.113549.1.1.1") ==> bound(ECKEY) && bound(ECERR)
 //@   ensures @C17,C14 err == nil && bound(P8) && bound(ECKEY) && bound(ECERR) && oidv(P8.Algo.Algorithm) != oid("1.2.840.113549.1.1.1") ==> ECERR == nil && typeis(key, "*crypto/ecdsa.PrivateKey") && unboxRef(key) == ECKEY
+// in terms of the input (rt.smt2), and the converse for EC keys: the curve comes from the algorithm parameters when they
+// are an OBJECT IDENTIFIER, else from the inner structure
+//@   let PB = old(bytes(der))
+//@   let INNER = p8Key(PB)
+//@   let CINP = (if isOidDer(p8Params(PB)) then curveOfOid(oidParse(p8Params(PB))) else curveOfOid(ecOidOf(INNER)))
+//@   let KP = typed(unboxRef(key), "*crypto/ecdsa.PrivateKey")
+//@   ensures @C17 err == nil ==> isP8Der(PB)
+//@   ensures @C17 err == nil && p8Alg(PB) == oid("1.2.840.10045.2.1") ==> typeis(key, "*crypto/ecdsa.PrivateKey") && isEcDer(INNER) && ecVer(INNER) == 1 && CINP >= 4 && curveId(KP.Curve) == CINP && BigVal(KP.D) == be(ecScalar(INNER)) && BigVal(KP.X) == sbmX(CINP, be(ecScalar(INNER))) && BigVal(KP.Y) == sbmY(CINP, be(ecScalar(INNER)))
+//@   ensures @C17 err == nil && p8Alg(PB) == oid("1.2.840.113549.1.1.1") ==> typeis(key, "*crypto/rsa.PrivateKey") && pkcs1priv(unboxRef(key)) == INNER
+//@   ensures @C17 isP8Der(PB) && p8Alg(PB) == oid("1.2.840.113549.1.1.1") && isPkcs1(INNER) ==> err == nil
+//@   ensures @C17 isP8Der(PB) && p8Alg(PB) == oid("1.2.840.10045.2.1") && isEcDer(INNER) && ecVer(INNER) == 1 && CINP >= 4 && be(ecScalar(INNER)) < curveOrder(CINP) && blen(ecScalar(INNER)) <= curveBytes(CINP) ==> err == nil
+
+// The round trip of C17 for EC keys, composed from the two contracts above by the verifier (the function lives in
+// roundtrip_verif.go under the verif tag and is never called): for every valid key on one of the ten curves - scalar in
+// [1, n-1], public point = scalar * G - writing and reading back succeeds and returns the same curve, scalar and point.
+// What it rests on is listed in rt.smt2: asn1.Unmarshal undoes asn1.Marshal on the two key containers.
+//@ func verifRoundTripEC returns (res, err)
+//@   props C17
+//@   uses ec.smt2 rt.smt2
+//@   let CID = curveId(key.Curve)
+//@   let R = typed(unboxRef(res), "*crypto/ecdsa.PrivateKey")
+//@   requires key != nil && key.Curve != nil && key.D != nil && key.X != nil && key.Y != nil
+//@   requires 4 <= CID && CID <= 13 && 0 < BigVal(key.D) && BigVal(key.D) < curveOrder(CID) && BigVal(key.X) == sbmX(CID, BigVal(key.D)) && BigVal(key.Y) == sbmY(CID, BigVal(key.D))
+//@   ensures @C17 err == nil && typeis(res, "*crypto/ecdsa.PrivateKey") && R != nil
+//@   ensures @C17 err == nil ==> curveId(R.Curve) == CID && BigVal(R.D) == BigVal(key.D) && BigVal(R.X) == BigVal(key.X) && BigVal(R.Y) == BigVal(key.Y)
+
+// The same for RSA keys: the PKCS#1 encoding of the key read back is the PKCS#1 encoding of the key written.
+//@ func verifRoundTripRSA returns (res, err)
+//@   props C17
+//@   uses ec.smt2 rt.smt2
+//@   requires key != nil
+//@   ensures @C17 err == nil && typeis(res, "*crypto/rsa.PrivateKey") && unboxRef(res) != 0 && pkcs1priv(unboxRef(res)) == pkcs1priv(key)
 
 // ---- declarations that encoding/asn1 encodes by reflection (C01, C02, C07, C14, C17): field order and tag options
 // as the ASN.1 modules give them (RFC 5280 4.1 and 4.2.1.4, RFC 2986 4, RFC 5208 5, RFC 5915 3). A SEQUENCE OF with
